@@ -396,6 +396,17 @@ static void worker(int tid, std::vector<Rec>* recs, std::vector<NvRec>* nvs, Tok
                     held.push_back({g.first, g.second, vh::fnv(g.first, g.second)});
                 }
             }
+        } else if (op == "geti") {
+            // a reader using the inline value type (only meaningful where every value of the key is inline)
+            std::string k;
+            vh::unhex(w[1], k);
+            std::pair<std::uintptr_t*, std::size_t> g{};
+            auto rc = get<std::uintptr_t>(g_storage, k, g);
+            o << st(rc);
+            if (rc == status::OK) {
+                if (g.first == nullptr) o << " NULLVALUE";
+                else o << " " << inline_str(g.first);
+            }
         } else if (op == "create" || op == "delete" || op == "find") {
             // storage directory operations (names in hex)
             std::string n;
